@@ -156,9 +156,11 @@ def trioLine {n : Nat} (a b c : Mat n n) : String :=
 def decode2 (a : Nat) : List Int := (List.range 4).map fun k => (Int.ofNat ((a / 4 ^ k) % 4)) - 1
 
 def mix (h : UInt64) (x : UInt64) : UInt64 := (h ^^^ x) * 1099511628211
-def u64 (x : Int) : UInt64 := UInt64.ofNat (x % 18446744073709551616).toNat
+/-- two's-complement image of a (small) integer in 64 bits -/
+def u64 (x : Int) : UInt64 := if x ≥ 0 then UInt64.ofNat x.toNat else 0 - UInt64.ofNat (-x).toNat
+/-- mixes the entries in row-major order (`at_r_c<i, j>` is storage element `i * c + j`: theorem `atRC_eq_entry`) -/
 def mixMat {r c : Nat} (h : UInt64) (m : Mat r c) : UInt64 :=
-  (List.finRange r).foldl (fun h i => (List.finRange c).foldl (fun h j => mix h (u64 (m.atRC i j))) h) h
+  Fin.foldl (r * c) (fun h k => mix h (u64 (m.s.get k))) h
 
 def pairsDigest (mode : Char) (a : Nat) : String :=
   match mkMat mode 2 2 (decode2 a) with
@@ -173,10 +175,19 @@ def pairsDigest (mode : Char) (a : Nat) : String :=
 /-- all 256 matrices in mode `mode`, in index order -/
 def all2 (mode : Char) : List (Mat 2 2) := (List.range 256).filterMap fun c => mkMat mode 2 2 (decode2 c)
 
+/-- `trioMats a b c` with the subterms that do not depend on `c` (and the repeated `b*c`, `a*c`) evaluated once:
+    the model is a pure function, so the six results are the same matrices -/
+def trioMatsShared {n : Nat} (a b ab aPlusB c : Mat n n) : List (Mat n n) :=
+  let bc := b.mul c
+  let ac := a.mul c
+  [ab.mul c, a.mul bc, a.mul (b.add c), ab.add ac, aPlusB.mul c, ac.add bc]
+
 def triosDigest (mode : Char) (a b : Nat) : String :=
   match mkMat mode 2 2 (decode2 a), mkMat mode 2 2 (decode2 b) with
   | some ma, some mb =>
-    let h := (all2 mode).foldl (fun h mc => (trioMats ma mb mc).foldl mixMat h) fnvInit
+    let ab := ma.mul mb
+    let aPlusB := ma.add mb
+    let h := (all2 mode).foldl (fun h mc => (trioMatsShared ma mb ab aPlusB mc).foldl mixMat h) fnvInit
     "D " ++ hex64 h
   | _, _ => "bad-op"
 
